@@ -1,3 +1,4 @@
+pub mod c01;
 pub mod c02;
 pub mod c03;
 pub mod c04;
@@ -9,6 +10,7 @@ pub mod c10;
 pub mod c11;
 pub mod c12;
 pub mod c13;
+pub mod c14;
 pub mod c15;
 pub mod c16;
 
@@ -24,6 +26,7 @@ pub fn dispatch(ctx: &Ctx, replay: Option<&str>) -> i32 {
         };
     }
     match ctx.id.as_str() {
+        "C01" => p!(c01),
         "C02" => p!(c02),
         "C03" => p!(c03),
         "C04" => p!(c04),
@@ -35,6 +38,7 @@ pub fn dispatch(ctx: &Ctx, replay: Option<&str>) -> i32 {
         "C11" => p!(c11),
         "C12" => p!(c12),
         "C13" => p!(c13),
+        "C14" => p!(c14),
         "C15" => p!(c15),
         "C16" => p!(c16),
         other => {
